@@ -472,8 +472,11 @@ class Ctx:
               "coverage": coverage, "assumptions": assumptions,
               "wall_s": round(time.time() - self.t0, 2), "violations": len(self.violations)}
         coverage["known_findings_reproduced"] = self.known_hits
-        os.makedirs(os.path.join(ROOT, "evidence"), exist_ok=True)
-        with open(os.path.join(ROOT, "evidence", self.prop + ".json"), "w") as f:
+        # runs against a scratch worktree (VERIF_REPO: seeded changes, mutation tests) must not overwrite the
+        # evidence of the registered checks, which is about /repo itself
+        evdir = os.path.join(ROOT, "evidence") if "VERIF_REPO" not in os.environ else os.path.join(BUILD, "evidence-scratch")
+        os.makedirs(evdir, exist_ok=True)
+        with open(os.path.join(evdir, self.prop + ".json"), "w") as f:
             json.dump(ev, f, indent=1, default=str)
         seen = 0
         for what, p, found in self.violations:
